@@ -29,7 +29,7 @@ CLAIMED = {
             "Sent; no order-breaking queue operation; re-arm is paired with the DUP patch and resets every retained entry "
             "to Write{0} unconditionally. These are inductive "
             "who-may-mutate facts that hold for histories of any length and every crash point because they quantify "
-            "over all call sites and paths; retransmission byte-identity and counting are not computed.",
+            "over all call sites and paths; retransmission byte-identity and counting are not computed. The acknowledgement removal takes out exactly the entry it looked up by identifier (index provenance), its lookup does not depend on data that changes while the packet is in flight, and the entry is removed before the reason code is examined; the arena clauses of C17 are evaluated here as well.",
             "DESIGN.md §4 C02"),
     "C01": ("must-dataflow (DRAINED) + table extraction/value-set folding of fixed-header flags vs MQTT 5 Table 2-2 + "
             "dominance/wiring on mir_built",
@@ -54,14 +54,14 @@ CLAIMED = {
             "identifier was just recorded, recording only when not already pending; every non-error PUBREL path queues a "
             "PUBCOMP with the table-correct reason and forgets the identifier; acks are serialised off-arena into their own "
             "queue; the reset clears pending identifiers; the delivered message is re-decoded from exactly the consumed prefix "
-            "of the untouched receive buffer with fields passed through. Decoder correctness for arbitrary bytes is C08/C09. The session reset that forgets pending inbound identifiers is placed on the no-session edge, on every path, before the handshake can fail for another reason.",
+            "of the untouched receive buffer with fields passed through. Decoder correctness for arbitrary bytes is C08/C09. The session reset that forgets pending inbound identifiers is placed on the no-session edge, on every path, before the handshake can fail for another reason. Nothing in the inbound PUBLISH arm consults the client's own in-flight tables (broker and client identifiers are separate spaces).",
             "DESIGN.md §4 C04"),
     "C05": ("wiring (expression reconstruction incl. closure captures) + dominance/must-pass on the handshake's mir_built",
             "Static analysis, structural clauses only: clean_start = !session_present and the client id wiring of CONNECT; "
             "session_present is set only by the handshake after reason code and all properties were accepted; the reset runs "
             "exactly on the no-session edge, before anything else in the handshake can fail, clears outbound and inbound "
             "in-flight state and bumps the generation; the ConnectEvent follows session_present; new identifiers are "
-            "allocated only after a successful drain. Broker behaviour is not modelled. The re-arm reached from Session::connect resets every entry of every queue unconditionally.",
+            "allocated only after a successful drain. Broker behaviour is not modelled. The re-arm reached from Session::connect resets every entry of every queue unconditionally. The status decision compares generations before identifiers (C18's table, evaluated here).",
             "DESIGN.md §4 C05"),
     "C06": ("who-may-write + value-shape matching + path-sensitive must-pass with correlated reason-code tests + "
             "interprocedural dependence (fields touched by the callees of the stored value) on mir_built",
@@ -69,7 +69,7 @@ CLAIMED = {
             "publishes still in flight at (re)connect; decrement tied to the successful enqueue and await-free; the gate "
             "dominates encoding; increments have the shape min(q+1,max), occur only in the PUBACK / PUBCOMP / failing-PUBREC "
             "arms, only after the matching removal, and on every such path. The counting invariant over histories follows "
-            "from these per-operation facts and is not itself computed.",
+            "from these per-operation facts and is not itself computed. max_inflight() is a constant no larger than the capacity of either table an exchange passes through; the in-flight count entering the stored quota is read after the fresh-session reset.",
             "DESIGN.md §4 C06"),
     "C07": ("type-level fact (NonZeroU16) + wiring of every identifier sink to the allocator + must-pass over the "
             "allocator's lookups on mir_built",
@@ -83,7 +83,7 @@ CLAIMED = {
             "dominate the handshake on every path and connect() has no exit that bypasses the handshake; CONNECT is the first "
             "I/O; the CONNECT scratch must not depend on in-flight state (known finding: it is the arena tail). Because the "
             "resets are unconditional the clause holds for every prior history (all crash points of all operations) without "
-            "enumerating them. Broker behaviour is not modelled. What CONNECT advertises (Receive Maximum, Maximum Packet Size, Session Expiry) is computed from configuration and capacities, never from in-flight state.",
+            "enumerating them. Broker behaviour is not modelled. What CONNECT advertises (Receive Maximum, Maximum Packet Size, Session Expiry) is computed from configuration and capacities, never from in-flight state. The window of a reconnected session is not charged for publishes discarded with the previous broker session.",
             "DESIGN.md §4 C12"),
     "C13": ("taint of transport byte counts vs. await points (Yield terminators of the pre-transform coroutine MIR) over "
             "the call tree + await-freedom of critical sections",
@@ -132,21 +132,21 @@ CLAIMED = {
             "only compact and the DUP patch otherwise write arena bytes; the patch shape; compact's copy/bookkeeping/cursor "
             "shape and order; (offset,len) wiring encoder -> retained entry -> step -> slice; writers of `used`; free space "
             "is a function of the retained entries. Leak freedom over long histories is argued from these who-may-write "
-            "facts (they hold for histories of any length), not measured; compact's arithmetic is not evaluated.",
+            "facts (they hold for histories of any length), not measured; compact's arithmetic is not evaluated. An acknowledgement with a failure code still releases the retained packet (entry removed before the reason code is examined, in all five arms).",
             "DESIGN.md §4 C17"),
     "C18": ("decision-table extraction of Session::status by constraint-tracking path enumeration + wiring + path-sensitive "
             "must-pass in the five acknowledgement arms",
             "Static analysis, structural clauses only: status table (generation first; retained / release-list membership "
             "per kind); lookups compare identifiers; handle creation wiring (kind, allocator id, current generation, only "
             "after enqueue); in each ack arm removal precedes the reason check, the failure is returned and surfaced, and a "
-            "failing PUBREC leaves no release entry. Identifier reuse is C07.",
+            "failing PUBREC leaves no release entry. Identifier reuse is C07. The session reset that invalidates handles is placed on the no-session edge, on every path, before any other failure of the handshake.",
             "DESIGN.md §4 C18"),
     "C19": ("decision-table extraction (135 cells) and interval extraction of value predicates vs MQTT 5; sibling coverage "
             "valid_for vs serialize; dominance of validation over every effect; wiring of the effective QoS",
             "Static analysis, structural clauses only: is_valid_for table vs MQTT 5 (must-accept / must-reject / don't-care); "
             "value predicates as intervals; valid_for covers everything serialize emits; validation with the right context "
             "dominates allocation, encode, enqueue, quota and writes; empty lists refused first; downgraded QoS used "
-            "everywhere; DISCONNECT scratch (known finding). All 27 kinds x 5 contexts are decided as table cells.",
+            "everywhere; DISCONNECT scratch (known finding). All 27 kinds x 5 contexts are decided as table cells. Tearing the handle down counts among the traces a refused request must not leave.",
             "DESIGN.md §4 C19"),
     "C20": ("wiring chain (expression reconstruction) from inbound property lookup to the reply publication + "
             "fallible-conversion census",
@@ -164,7 +164,7 @@ CLAIMED = {
             "trailing-payload whitelist and the varint bounds/overlong test against MQTT 5; the unreachable!() sites are dead "
             "by variant flow; decode/protocol errors latch (C11 inbound clauses). 'No panic for any byte string' is thereby a "
             "finite obligation list instead of a sampled input space. Exact field values are decided only through the C09 "
-            "type/layout tables.",
+            "type/layout tables. Nothing from a CONNACK is written into session state while its property block is still being examined.",
             "DESIGN.md §4 C08"),
 }
 
